@@ -265,3 +265,6 @@ def check(ctx):
     ctx.assumptions = ["TLC 1.8.0 and CommunityModules are correct",
                        "the driver's concretisation (shared with C11) is correct; stream positions are carried in DltMessage.index",
                        "event filters are part of the selection for match_filters (streams, searches, export) and not for filter_as_streams (convert)"]
+
+# round 6 (DESIGN.md 11.10)
+META["technique"] += ' Two further driver modes without prediction, always decided by TLC: the stream filter whose consumer hangs up after 0 / 1 / 2 kept messages (numbers, if reported, add up to what was taken from the input: StreamHangupOk) and one backlog of 140 000 messages handed to the stream context in a single call (summary per message, index list ascending: SetBig).'
